@@ -16,6 +16,18 @@ FS = "func_adl/ast/function_simplifier.py"
 UT = "func_adl/util_types.py"
 
 MUTANTS = {
+    "C09": [
+        {"name": "method-before-class", "edits": [(TBR, "            for base_obj in [obj_type, call_method]:", "            for base_obj in [call_method, obj_type]:")]},
+        {"name": "drop-scan-for-metadata", "edits": [(TBR, "                scan_for_metadata(r.query_ast, add_md)\n", "")]},
+        {"name": "select-uses-parent-ast", "edits": [(OS_, "            function_call(\"Select\", [n_stream.query_ast, n_ast]),\n            rtn_type,", "            function_call(\"Select\", [self._q_ast, n_ast]),\n            rtn_type,")]},
+        {"name": "where-uses-parent-ast", "edits": [(OS_, "            function_call(\"Where\", [n_stream.query_ast, n_ast]),", "            function_call(\"Where\", [self._q_ast, n_ast]),")]},
+        {"name": "processor-result-ignored", "edits": [(TBR, "                    r_stream, r_node = func_info.processor_function(self.stream, r_node)\n                    assert isinstance(r_node, ast.AST)", "                    r_stream, _ignored = func_info.processor_function(self.stream, r_node)\n                    assert isinstance(r_node, ast.AST)")]},
+        {"name": "root-rewrite-lost-again", "edits": [(TBR, "                if isinstance(followed, ast.Lambda) and len(call_node.args) == 1:", "                if isinstance(followed, ast.Lambda) and len(call_node.args) == 1 and False:")]},
+        {"name": "class-callback-only-first-method", "edits": [(TBR, "                attr = getattr(base_obj, \"_func_adl_type_info\", None)\n                if attr is not None:", "                attr = getattr(base_obj, \"_func_adl_type_info\", None)\n                if attr is not None and not (base_obj is obj_type and getattr(self, '_seen_cls', None) is obj_type):\n                    self._seen_cls = obj_type")]},
+        {"name": "param-slice-kept", "edits": [(TBR, "            t_node = ast.Call(func, node.args, node.keywords)\n", "            t_node = ast.Call(node.func if isinstance(slice, ast.Tuple) and len(slice.elts) == 3 else func, node.args, node.keywords)\n")]},
+        {"name": "params-as-str", "edits": [(TBR, "            parameters = ast.literal_eval(slice)\n", "            parameters = ast.literal_eval(slice)\n            parameters = parameters if not isinstance(parameters, tuple) else list(parameters)\n")]},
+        {"name": "callback-stream-dropped-in-selectmany", "edits": [(OS_, "            function_call(\"SelectMany\", [n_stream.query_ast, n_ast]),", "            function_call(\"SelectMany\", [self.query_ast, n_ast]),")]},
+    ],
     "C08": [
         {"name": "binop-float-rule-dropped", "edits": [(TBR, "            elif (t_left == float) or (t_right == float):\n                self._found_types[node] = float\n                self._found_types[t_node] = float\n            elif isinstance(node.op, ast.Div):", "            elif isinstance(node.op, ast.Div):")]},
         {"name": "div-int", "edits": [(TBR, "            elif isinstance(node.op, ast.Div):\n                self._found_types[node] = float\n                self._found_types[t_node] = float", "            elif isinstance(node.op, ast.Div) and False:\n                self._found_types[node] = float\n                self._found_types[t_node] = float")]},
